@@ -182,6 +182,12 @@ def oracle(case, impl, model):
                 return "find_common_data reports a GNU hash table but there is no SHT_GNU_HASH section"
             if count(0x6ffffff6) >= 1 and parts[4] == "none":
                 return "find_common_data lost the GNU hash table of the SHT_GNU_HASH section"
+    elif hdrs is not None:
+        count = lambda t: sum(1 for h in hdrs if h[1] == t)
+        if (count(2) <= 1 and count(11) <= 1 and count(6) == 1 and count(5) == 0 and count(0x6ffffff6) == 0
+                and "E" not in (res["symtab"], res["dynsym"], res["dynamic"])):
+            return ("find_common_data fails although symbol_table(), dynamic_symbol_table() and dynamic() all succeed, each kind "
+                    "occurs at most once, .dynamic is present and there is no hash section to fail on")
     # 2. by name
     st = res["shstr"]
     if st != "E" and hdrs is not None:
